@@ -51,6 +51,8 @@ def geo_expr(e: ast.AST) -> ast.AST:
 def frame_consistency(index: RepoIndex, rep, rule: str, geo: Geometry, pipe: Pipeline,
                       sub: Subgrid) -> None:
     """C05.R1 / C07.R1: obligations per heading"""
+    from .c18 import mul_returns_operand
+    mul_returns_operand(index, rep, rule)
     gi = GeoInterp(geo)
     src_grid, area_e, rot_e = pipe.decompose_grid()
     fn = pipe.func
